@@ -129,6 +129,8 @@ class ExternalAddress:
         if isinstance(address, str):
             address = bytes.fromhex(address)
         if isinstance(address, bytes):
+            if length is None:
+                length = len(address) * 8  # a byte string has a length of its own: its leading zero bits belong to it
             address = int.from_bytes(address, 'big')
         if length is None:
             length = address.bit_length()
